@@ -8,6 +8,7 @@ from .wire import *
 from .world import St
 from . import handler_common as HC
 from mirse.models.bytesm import Buf, Rope, VTerm, WIRE, Val, vnum, visnum, vutf8
+from mirse.models.bytesm import vlen as vlen_
 
 OPCODE_OF = {'Get': 0x00, 'Set': 0x01, 'Add': 0x02, 'Replace': 0x03, 'Delete': 0x04, 'Increment': 0x05, 'Decrement': 0x06,
              'Flush': 0x08, 'GetQuietly': 0x09, 'GetKey': 0x0c, 'GetKeyQuietly': 0x0d, 'Append': 0x0e, 'Prepend': 0x0f,
@@ -215,7 +216,7 @@ def wire_roundtrip(ck, tier, families=('store', 'concat', 'get', 'counter')):
                     ck.obligation(f'{tag}: flush answers ok', pc, r.status == 0, {}, on_w, small)
                 ck.cover(f'{tag}: flush ' + v, True)
             if nval < (25 if tier == 'quick' else 10 ** 6):
-                m = ck.witness(list(pc) + [z3.ULE(HC.total, 4096)], small)
+                m = ck.witness(list(pc) + [z3.ULE(HC.total, 4096)] + [z3.ULE(vlen_(v_), 512) for v_ in st.val], small)
                 if m is not None and m != 'unknown':
                     nval += 1
                     okc, desc, sc = HC.confirm(ck, m, st, x, policy, mlim)
